@@ -305,10 +305,15 @@ def cli_batch(res, tier):
             n += 1
             path = os.path.join(d, 'c%d.p8' % n)
             from lib import carts
-            g = carts.make_game({}, version=33, code_lines=[src])
-            p8file.to_file(g, path)
             res.evaluations += 1
             case = {'src': src, 'width': width, 'cli': True}
+            try:
+                g = carts.make_game({}, version=33, code_lines=[src])
+                p8file.to_file(g, path)
+            except Exception as e:
+                res.violation('C09|cli|cart-raise|%s' % type(e).__name__,
+                              'the valid program %r cannot be put into a cart: %r' % (src, e), case)
+                continue
             # how the command is run rotates: absolute path; relative path from the directory; under --debug; on a
             # .p8.png copy of the cart; several carts in one command
             how = ('abs', 'rel', 'debug', 'png', 'multi')[n % 5]
